@@ -39,9 +39,30 @@ class Gen:
             self.arrays["e"] = list(self.arrays["d"])
         self.arrays["lm"] = list(self.arrays["a"])
         self.logical = {"lm"}
+        self.forms = {}
+        # half of the cases: explicit-shape locals only (the shapes covered by the Coq model)
+        self.args = r.random() < 0.6
+        self.mixed_forms = self.args and r.random() < 0.8
+        self.assign_forms(list(self.arrays))
         self.int_arrays = set()
         self.rscalars = ["x", "y", "z"]
         self.iscalars = ["n", "m", "k"]
+
+    def assign_forms(self, names):
+        """declaration form per array: explicit shape, assumed shape (with / without explicit lower bounds) or
+        allocatable; the EFFECTIVE bounds (self.arrays) are what the routine sees and are not changed."""
+        r = self.r
+        for a in names:
+            if not self.mixed_forms:
+                self.forms[a] = ("explicit",)
+                continue
+            c = r.random()
+            if c < 0.35:
+                self.forms[a] = ("explicit",)
+            elif c < 0.88:
+                self.forms[a] = ("assumed", [None if (lb == 1 and r.random() < 0.6) else lb for lb, _ in self.arrays[a]])
+            else:
+                self.forms[a] = ("alloc",)
 
     def decls(self):
         d = [(v, "real", []) for v in self.rscalars] + [(v, "integer", []) for v in self.iscalars]
@@ -478,6 +499,7 @@ class Gen:
         A["r1"] = [B(lbp if same else pick(), p)]
         A["r2"] = [B(lbp if same else pick(), p), B(lbq if same else pick(), q)]
         A["m3"] = [B(lbp, p), B(lbn, n), B(1, 2)]
+        self.assign_forms(["m1", "m2", "v1", "v2", "r1", "r2", "m3"])
 
     def dot_stmt(self):
         r = self.r
